@@ -1,6 +1,6 @@
 """C02 — unbounded SPSC queue: node hand-off, ownership, allocation cap (DESIGN §4 C02)."""
 import re
-from qlib import (AnalysisBroken, atomic_op, is_release, is_acquire, is_this_field, field_name, strip, norm_cmp,
+from qlib import (base_name, AnalysisBroken, atomic_op, is_release, is_acquire, is_this_field, field_name, strip, norm_cmp,
                   is_call, const_val, is_null, isnode, walk, short, var_ref, expr_key, CMP_FLIP)
 import roles as roles_mod
 
@@ -193,6 +193,22 @@ def check_r2(ctx, byname):
         commits = [p for c in m.calls(r"BoundedSPSCQueueImpl<.*>::commit_write$")
                    if any(deref_of_field(x, "_producer") for x in walk(c)) for p in g.positions(c)]
         ok_h = bool(commits) and all(not g.exists_path([g.entry_node], [s_], avoid_nodes=commits) for s_ in spos)
+        if not commits:
+            # the switch extracted into a helper of the class: then every call site of the helper has committed before the call
+            sites = 0
+            ok_sites = True
+            for m2 in byname.values():
+                cs2 = [c for c in m2.calls() if base_name(c.get("callee") or "") == m.base and "UnboundedSPSCQueue" in (c.get("callee") or "")]
+                if not cs2 or m2 is m:
+                    continue
+                g2 = m2.g
+                com2 = [p for c in m2.calls(r"BoundedSPSCQueueImpl<.*>::commit_write$")
+                        if any(deref_of_field(x, "_producer") for x in walk(c)) for p in g2.positions(c)]
+                for c in cs2:
+                    sites += 1
+                    if not com2 or any(g2.exists_path([g2.entry_node], [p_], avoid_nodes=com2) for p_ in g2.positions(c)):
+                        ok_sites = False
+            ok_h = sites > 0 and ok_sites
         ctx.ob("C02.R2h", "%s:old-node-committed-before-publish" % m.base, ok_h,
                "every path to the release store of next has committed the writes of the current node (_producer->bounded_queue."
                "commit_write()): sibling agreement of every function that switches nodes (%d commit site(s))" % len(commits), loc=n["loc"], fn=m)
@@ -319,6 +335,36 @@ def cmp_sides(cond):
     return (op, l, r)
 
 
+def _helper_returns_fitting_capacity(m, byname, capv, nbytes):
+    init = m.var_inits().get(capv)
+    call = strip(init, casts=True) if isnode(init) else None
+    if not (isnode(call) and is_call(call) and not m.assignments_to_var(capv)):
+        return False
+    h = byname.get(base_name(call.get("callee") or ""))
+    if h is None:
+        return False
+    pos_ = [i for i, a in enumerate(call.get("args") or []) if var_ref(a) == nbytes]
+    if len(pos_) != 1 or pos_[0] >= len(h.rec["params"]):
+        return False
+    hn = h.rec["params"][pos_[0]]["did"]
+    hg = h.g
+    rets = hg.return_nodes()
+    rv = set(var_ref(hg.node_ast(r).get("val")) for r in rets)
+    if len(rv) != 1 or None in rv:
+        return False
+    hv = rv.pop()
+    fit = []
+    for (b2, cond2) in hg.branch_edges_on(lambda c: cmp_sides(c) is not None):
+        op2, l2, r2 = cmp_sides(cond2)
+        if var_ref(l2) == hv and var_ref(r2) == hn:
+            fit.append((b2, "F"))
+        elif var_ref(l2) == hn and var_ref(r2) == hv:
+            fit.append((b2, "T"))
+    wr = [p for n in h.walk() if n["k"] in ("BinaryOperator", "CompoundAssignOperator") and n.get("op", "").endswith("=") and
+          n.get("op") not in ("==", "!=", "<=", ">=") and var_ref(n.get("lhs")) == hv for p in hg.positions(n)]
+    return bool(fit) and not hg.exists_path([hg.entry_node], rets, avoid_edges=fit) and not hg.exists_path(wr, rets, avoid_edges=fit)
+
+
 def check_r4(ctx, byname, strict=False):
     """strict: growth to exactly the maximum must still be allowed (C09: a fitting statement is not refused); C02 itself only
     requires that nothing beyond the maximum is allocated"""
@@ -380,6 +426,10 @@ def check_r4(ctx, byname, strict=False):
             wr = [p for n in m.walk() if n["k"] in ("BinaryOperator", "CompoundAssignOperator") and n.get("op", "").endswith("=") and
                   n.get("op") not in ("==", "!=", "<=", ">=") and var_ref(n.get("lhs")) == capv and capv is not None for p in g.positions(n)]
             ok = bool(fit) and not g.exists_path([g.entry_node], npos, avoid_edges=fit) and not g.exists_path(wr, npos, avoid_edges=fit)
+            if not fit and not wr and capv is not None:
+                # the capacity computed by a helper of the class that is handed nbytes (`capacity = _next_queue_capacity(current, nbytes)`):
+                # the same question is asked of the value the helper returns
+                ok = _helper_returns_fitting_capacity(m, byname, capv, nbytes)
             ctx.ob("C02.R4f", "_handle_full_queue:new-node-holds-the-record", ok,
                    "the capacity handed to the new node has passed 'nbytes <= capacity' after its last change: the reservation in the "
                    "fresh node cannot fail (a fitting statement is neither refused nor left to a second allocation)", loc=nw["loc"], fn=m)
